@@ -89,7 +89,9 @@ def run_scenario(entry, plan, container, seed, tid):
     if "inverse_transform" in entry["methods"]:
         X0, _ = fresh_data()
         inv_in = entry["factory"]().fit(X0).transform(X0)
-    caller = [X, y, inv_in, Xa]
+    # horizons are the caller's objects too: a list and an array, neither of them in ascending order
+    fh_out, fh_in = [6, 4, 5], np.array([1, -2, 0, -1])
+    caller = [X, y, inv_in, Xa, fh_out, fh_in]
     d0 = fp(caller)
 
     def call(est, m, Xarg, inv):
@@ -104,13 +106,13 @@ def run_scenario(entry, plan, container, seed, tid):
                 except Exception as e:
                     return "raised"
             if m == "predict":
-                return est.predict([4, 5, 6])
+                return est.predict(fh_out)
             if seed % 2:
                 # an absolute in-sample horizon with the very values of the relative one above
                 from sktime.forecasting.base import ForecastingHorizon
                 r = est.predict(ForecastingHorizon(pd.Index([4, 5, 6]), is_relative=False))
             else:
-                r = est.predict([-2, -1, 0, 1])
+                r = est.predict(fh_in)
             # asked again without a horizon, the forecaster answers for the horizon it was just given
             r2 = est.predict()
             if list(r2.index) != list(r.index) or not np.array_equal(r2.values, r.values, equal_nan=True):
@@ -148,7 +150,7 @@ def run_scenario(entry, plan, container, seed, tid):
             else:
                 XB, yB = panel_data(entry, seedB, container)
             aB = (XB,) if yB is None else (XB, yB if kind != "regressor" else np.asarray(yB, dtype=float))
-            callerB = [XB, yB, inv_in, Xa]
+            callerB = [XB, yB, inv_in, Xa, fh_out, fh_in]
             dB = fp(callerB)
             est.fit(*aB)
             events.append({"op": "fit2", "m": "", "efp": efp(est), "dfp": fp(callerB), "d2": dB, "rfp": 0})
